@@ -106,9 +106,9 @@ func StatePredicates(prefix string) {
 		verifrt.Region(prefix+"reach:tx2-failed-aborted", S.Txs[NX-1].State == txFAILED && txTerminal(1))
 	}
 	if NX == 2 || NX == 3 {
-		// waypoint classes: each transaction is fresh (-), committed but not applied (C), applied (A) or failed (F); the
+		// waypoint classes: each transaction is fresh (-), validated (V), committed but not applied (C), applied (A) or failed (F); the
 		// checker continues from one reachable state of a class (name: one letter per transaction, e.g. w-CF-)
-		var cls [3][4]bool
+		var cls [3][5]bool
 		for i := 0; i < NX; i++ {
 			t := &S.Txs[i]
 			cls[i][0] = !t.Exists
@@ -122,15 +122,16 @@ func StatePredicates(prefix string) {
 			cls[i][1] = t.State == txCOMMITTED && unapplied
 			cls[i][2] = t.State == txAPPLIED
 			cls[i][3] = t.State == txFAILED
+			cls[i][4] = t.State == txVALIDATED // validated, its commit phase under way
 		}
-		const letters = "-CAF"
-		for a := 1; a < 4; a++ {
-			for b := 0; b < 4; b++ {
+		const letters = "-CAFV"
+		for a := 1; a < 5; a++ {
+			for b := 0; b < 5; b++ {
 				if NX == 2 {
 					verifrt.Region(prefix+"reach:w-"+letters[a:a+1]+letters[b:b+1], cls[0][a] && cls[1][b])
 					continue
 				}
-				for c := 0; c < 4; c++ {
+				for c := 0; c < 5; c++ {
 					if b == 0 && c != 0 {
 						continue
 					}
